@@ -103,8 +103,8 @@ func c07Oracle(c *ParseCase) string {
 			if fe == nil || fe.Type != flags.ErrUnknownFlag {
 				return fmt.Sprintf("expected ErrUnknownFlag for `%s', got %T: %v", ref.Err.Name, rr.Err, firstLine(rr.Err.Error()))
 			}
-			if !strings.Contains(fe.Message, "`"+ref.Err.Name+"'") {
-				return fmt.Sprintf("ErrUnknownFlag message %q does not name `%s'", fe.Message, ref.Err.Name)
+			if fe.Message != "unknown flag `"+ref.Err.Name+"'" {
+				return fmt.Sprintf("ErrUnknownFlag message %q is not \"unknown flag `%s'\"", fe.Message, ref.Err.Name)
 			}
 		} else {
 			st.Label("none: no unknown option first")
